@@ -138,3 +138,50 @@ pub(crate) static mut LHS_TYPE: Option<Type> = None;
 pub(crate) fn index_expr_get_type__contract(this: &IndexExpr) -> Type {
     unsafe { LHS_TYPE.unwrap() }
 }
+
+// ---------------------------------------------------------------------------
+// Replay of a counterexample against the REAL code, end to end.
+//
+// Kani's concrete playback compiles the harness as an ordinary `#[test]` (cfg(test) is
+// set, no `#[kani::stub]` is applied, `kani::any()` returns the counterexample's
+// values).  In that mode the arm obligations do not use the contract stub at all:
+// they build the comparison with the real `SchemeBuilder` (HashMap registry and all),
+// compile it with the unmodified `ComparisonExpr::compile_with_compiler` and the
+// `DefaultCompiler`, execute it on a real context and compare with the reference.
+// A playback test therefore fails iff the real code gives the wrong answer on the
+// verifier's input.
+
+/// Run `f <op>` natively: `value` = Some(v) sets the field, None leaves the optional field
+/// absent.  Returns the filter's truth value.
+pub(crate) fn replay_end_to_end(ty: Type, nil_not_equal: bool, op: ComparisonOpExpr, value: Option<LhsValue<'static>>) -> bool {
+    let mut builder = crate::scheme::SchemeBuilder::new();
+    builder.add_optional_field("f", ty).unwrap();
+    builder.set_nil_not_equal_behavior(nil_not_equal);
+    replay_on(builder.build(), op, value)
+}
+
+pub(crate) fn replay_on(scheme: Scheme, op: ComparisonOpExpr, value: Option<LhsValue<'static>>) -> bool {
+    let field = scheme.get_field("f").unwrap();
+    let mut ctx = ExecutionContext::<()>::new(&scheme);
+    if let Some(v) = value {
+        ctx.set_field_value(field, v).unwrap();
+    }
+    let expr = ComparisonExpr {
+        lhs: IndexExpr {
+            identifier: IdentifierExpr::Field(field.to_owned()),
+            indexes: Vec::new(),
+        },
+        op,
+    };
+    match expr.compile_with_compiler(&mut crate::compiler::DefaultCompiler::<()>::new()) {
+        CompiledExpr::One(one) => one.execute(&ctx),
+        CompiledExpr::Vec(_) => panic!("a scalar comparison must compile to a single boolean"),
+    }
+}
+
+/// Playback-mode body shared by the arm obligations: present value gives `want`,
+/// absent optional field gives `want_absent`.
+pub(crate) fn replay_check(ty: Type, nil: bool, op: impl Fn() -> ComparisonOpExpr, value: LhsValue<'static>, want: bool, want_absent: bool) {
+    assert!(replay_end_to_end(ty, nil, op(), Some(value)) == want, "REPLAY on real code: wrong answer for a present value");
+    assert!(replay_end_to_end(ty, nil, op(), None) == want_absent, "REPLAY on real code: wrong answer for an absent value");
+}
